@@ -3,8 +3,8 @@ sys.path.insert(0, os.path.join(os.path.dirname(__file__), '..', 'lib'))
 import std
 
 SPEC = {
-    'prop_files': ['theories/Properties/C01.v', 'theories/Properties/C01_compose.v'],
-    'coq_targets': ['theories/Properties/C01.vo', 'theories/Properties/C01_compose.vo', 'theories/C01/Corr.vo'],
+    'prop_files': ['theories/Properties/C01.v', 'theories/Properties/C01_compose.v', 'theories/Properties/C01_json.v'],
+    'coq_targets': ['theories/Properties/C01.vo', 'theories/Properties/C01_compose.vo', 'theories/Properties/C01_json.vo', 'theories/C01/Corr.vo', 'theories/C01/CorrJson.vo'],
     'closure_dirs': ['theories/C01', 'theories/Generic', 'theories/Wire/Item.v', 'theories/Base/Outcome.v', 'theories/Gen/Consts.v',
                      'theories/Base/Word.v', 'theories/Base/FBits.v', 'theories/Gen/Leaf.v',
                      'theories/Wire/Simple.v', 'theories/Wire/SimpleProofs.v',
@@ -12,18 +12,22 @@ SPEC = {
                      'theories/Wire/Cbor.v', 'theories/Wire/CborFloat.v', 'theories/Wire/CborProofs.v', 'theories/Wire/CborEnc.v', 'theories/Wire/CborTime.v',
                      'theories/C10/CborSpec.v', 'theories/C10/CborConv.v',
                      'theories/Wire/Binc.v', 'theories/Wire/BincProofs.v',
-                     'theories/C07/Model.v'],
-    'harness': 'c01',
-    'args': {
-        'quick': ['-model', 600, '-oracle', 4000],
-        'thorough': ['-model', 6000, '-oracle', 60000],
-    },
-    'search_args': ['-model', 3000, '-oracle', 30000],
+                     'theories/C07/Model.v', 'theories/C07/Spec.v', 'theories/C07/Proofs.v', 'theories/C07/ProofsLeaf.v', 'theories/C07/ProofsFrac.v', 'theories/C07/ProofsFloat.v',
+                     'theories/Wire/Json.v', 'theories/Wire/JsonProofs.v', 'theories/Wire/JsonRT.v', 'theories/Wire/JsonTotal.v', 'theories/Wire/JsonLeaf.v',
+                     'theories/C09/Spec.v', 'theories/C09/Model.v', 'theories/C09/ProofsStr.v', 'theories/C09/ProofsNum.v', 'theories/C09/ProofsQuote.v', 'theories/C09/ProofsUint.v',
+                     'theories/C07/Spec.v', 'theories/C07/ProofsLeaf.v', 'theories/C07/ProofsFrac.v', 'theories/C07/Proofs.v', 'theories/C07/ProofsFloat.v'],
+    'harnesses': [
+        {'cmd': 'c01', 'args': {'quick': ['-model', 600, '-oracle', 4000], 'thorough': ['-model', 6000, '-oracle', 60000]},
+         'search_args': ['-model', 3000, '-oracle', 30000]},
+        # json: the real encoder's text / the real decoder's typed output against the json driver record W_json (C01/CorrJson.v)
+        {'cmd': 'c01json', 'args': {'quick': ['-n', 400], 'thorough': ['-n', 6000]}, 'search_args': ['-n', 3000]},
+    ],
     'eval_timeout': {'quick': 600, 'thorough': 1500},
     'assumptions': [
         'PROVED (generic layer, all option vectors / types / values / map orders, no size bound): for every driver meeting the explicit interface wire_ok (Generic/Dec.v), of_item (wn (to_item v)) = Ok (norm (arrange v)) and arrange v equals v up to the order of map entries; norm spells out the losses (nil->empty under NilCollectionToZeroLength, pointer to a value written as nil -> nil pointer, the format\'s float/time normalisation fn32/fn64/tnorm)',
         'PER-FORMAT: the five C01_<fmt>_roundtrip_partial theorems are the generic theorem under the HYPOTHESIS wire_ok W for that format\'s wire record; instantiating W from Wire/<Fmt>.v and proving wire_ok from its dec(enc i ++ rest) lemma is the remaining composition step (id_wire shows the interface is satisfiable)',
         'premises of the theorems: wt t v (value of the static type, map keys distinct and not NaN), supported t (no interface/chan/func slots; map keys of scalar kinds; resolved struct field names distinct), leaves_ok (the format supports every scalar leaf: e.g. valid UTF-8 for json, time within the documented range), item depth < MaxDepth (decoderBase.depthIncr)',
+        'JSON composition (Properties/C01_json.v): hypotheses float_time_laws and json_rt_laws about the strconv/time oracle are explicit in the statements and NOT proved (strconv is not modelled); the typed reads j_rd_* are hand transcriptions of json.go acting on the item DecodeNaked\'s walk produces (DecodeFloat32 = parseFloat32 is modelled as IEEE narrowing of the float64 reading; an integer token read by DecodeFloat64 is re-read from the canonical decimal of its value); they are tied to the implementation by evaluation: harness/cmd/c01json decodes the real encoder\'s text with the real typed Decoder and C01/CorrJson.v must reproduce the value through Json.dec_naked + of_item (W_json ..); default TimeFormat/BytesFormat only',
         'struct field lists are the already resolved encoded fields (tags, embedding, omitempty: property C16); the harness strips omitempty from generated struct tags',
         'model of encode.go/decode.go is hand written; tied to the code by vm_compute on what the real cbor Encoder wrote (parsed by an independent cbor parser in the harness) and what the real Decoder returned; all five formats are covered by the direct oracle only',
         'one path difference is not in the model: a nil []byte reached only by reflection (Encode(&b) at top level, named byte-slice types) is written under NilCollectionToZeroLength as an empty array where the builtin path writes empty bytes; both decode to the empty []byte; the correspondence accepts exactly that case explicitly (C01/Corr.v nil_bytes_by_reflection)',
@@ -43,7 +47,7 @@ def main(chk):
 
 MANIFEST = {
     'category': 'proof',
-    'technique': 'Coq proof by structural induction over values of the generic encode/decode round trip against an abstract driver interface (wire_ok), composed down to bytes with the per-format driver models (simple, msgpack, binc full; cbor partial) + vm_compute correspondence of the generic model with the real cbor Encoder/Decoder through an independent cbor parser + direct round-trip oracle on all five formats, bytes and io transports, boundary lengths',
-    'text': 'C01_generic_roundtrip: for all option vectors (StructToArray, Canonical, NilCollectionToZeroLength, MaxDepth, ErrorIfNoField), supported static types, well-typed values and map iteration orders, the generic decoder applied to what any wire_ok driver hands back for the generic encoder\'s calls returns the value up to the documented losses. Composed theorems (Properties/C01_compose.v): C01_simple_roundtrip, C01_msgpack_roundtrip, C01_binc_roundtrip (stateful, any related symbol tables) — the bytes the driver model writes for the generic encoder\'s item, followed by any rest, decode (driver model) to the normalised item leaving rest, and the generic decoder turns it into the value up to that format\'s stated losses; C01_cbor_roundtrip_bytes_partial (non-zero time.Time outside). json is not composed (Wjson round trip rests on unproved lexical laws); the older C01_*_roundtrip_partial statements over the interface hypothesis remain in Properties/C01.v and are superseded for those four formats.',
-    'note': 'Trusted: Coq kernel; hand-written generic model (correspondence-checked on cbor) and driver models (each correspondence-checked by its wire check); the typed readers rd_* are hand-written functions of the item the naked decoder returns; that a typed read on the encoder\'s bytes equals rd_* on the item is proved per leaf read: C01_{msgpack,simple,cbor,binc}_typed_reads (integers into the 11 integer kinds, nil, floats into float64, against the C07 byte-level driver models) and C01_{cbor,binc}_typed_reads_leaves_partial (TryNil, CheckBreak, DecodeBool, DecodeStringAsBytes incl. cbor chunks and binc symbols in any related tables, DecodeBytes, DecodeTime, ReadArrayStart/ReadMapStart, against the reader models of C01/TypedRd.v) - not proved: float32 destinations, cbor tag-1 times, the element walk between a container head and its end, msgpack/simple non-numeric reads; reflection/unsafe value access; Go toolchain. Exclusions stated in the theorems (leaves_ok): float32 signalling NaNs (come back quiet), unsigned >= 2^63 under SignedInteger (rejected), non-zero times for cbor, zero scalars under simple EncZeroValuesAsNil. Findings: F01-g1, F01-1 fixed; F01-s2r (json + StringToRaw) known.',
+    'technique': 'Coq proof by structural induction over values of the generic encode/decode round trip against an abstract driver interface (wire_ok), composed down to bytes with the per-format driver models (simple, msgpack, binc full; cbor partial; json to text under explicit strconv/time oracle hypotheses) + vm_compute correspondence of the generic model with the real cbor Encoder/Decoder through an independent cbor parser + direct round-trip oracle on all five formats, bytes and io transports, boundary lengths',
+    'text': 'C01_generic_roundtrip: for all option vectors (StructToArray, Canonical, NilCollectionToZeroLength, MaxDepth, ErrorIfNoField), supported static types, well-typed values and map iteration orders, the generic decoder applied to what any wire_ok driver hands back for the generic encoder\'s calls returns the value up to the documented losses. Composed theorems (Properties/C01_compose.v): C01_simple_roundtrip, C01_msgpack_roundtrip, C01_binc_roundtrip (stateful, any related symbol tables) — the bytes the driver model writes for the generic encoder\'s item, followed by any rest, decode (driver model) to the normalised item leaving rest, and the generic decoder turns it into the value up to that format\'s stated losses; C01_cbor_roundtrip_bytes_partial (non-zero time.Time outside). json is composed to the TEXT (Properties/C01_json.v): C01_json_wire_ok (the driver record W_json built from Wire/Json.v meets wire_ok with exact_losses; typed reads transcribed from json.go incl. parseInteger_bytes over C09\'s parseUint64_simple, base64 decode C01_json_base64 proved inverse of the encoder, RFC 3339 time via Wire/Cbor.parse_core) and C01_json_roundtrip / _anyleaf (text the driver model writes for the generic encoder\'s item, followed by any rest the tokenizer permits, decodes to the normalised item and the generic decoder returns the value up to exact_losses), for every JsonHandle encoder option vector with base64 []byte and StringToRaw off, under two explicit hypotheses about the unmodelled strconv/time oracle: float_time_laws (Wjson) and json_rt_laws (parseFloat64 inverts the encoder\'s shortest float text; when that text is a bare integer literal - json writes integral floats >= 2^52 so - it is the canonical decimal of a non-zero integer; float32 through IEEE narrowing; RFC3339Nano text read back: discharged by C01_json_time_law for the modelled formatter); C01_json_hypotheses_satisfiable + C01_json_roundtrip_toyleaf: a toy oracle meets all hypotheses, giving a hypothesis-free instance (non-vacuity, not a claim about strconv). Strings and integers are json.go\'s own code (C09 model), their laws proved. The older C01_*_roundtrip_partial statements over the interface hypothesis remain in Properties/C01.v and are superseded for all five formats.',
+    'note': 'Trusted: Coq kernel; hand-written generic model (correspondence-checked on cbor) and driver models (each correspondence-checked by its wire check); the typed readers rd_* are hand-written functions of the item the naked decoder returns; that a typed read on the encoder\'s bytes equals rd_* on the item is proved per leaf read: C01_{msgpack,simple,cbor,binc}_typed_reads (integers into the 11 integer kinds, nil, floats into float64, against the C07 byte-level driver models), C01_typed_reads_float32 (a float32 into a float32 destination, four formats) and C01_{cbor,binc}_typed_reads_leaves_partial (TryNil, CheckBreak, DecodeBool, DecodeStringAsBytes incl. cbor chunks and binc symbols in any related tables, DecodeBytes, DecodeTime, ReadArrayStart/ReadMapStart, against the reader models of C01/TypedRd.v) - not proved: cbor tag-1 times, the element walk between a container head and its end, msgpack/simple non-numeric reads; reflection/unsafe value access; Go toolchain. Exclusions stated in the theorems (leaves_ok): float32 signalling NaNs (come back quiet), unsigned >= 2^63 under SignedInteger (rejected), non-zero times for cbor, zero scalars under simple EncZeroValuesAsNil; for json: NaN/Inf (written as null), invalid UTF-8 (U+FFFD), StringToRaw (F01-s2r), BytesFormat array, years outside 0..9999, and as artefacts of presenting text as DecodeNaked\'s item: integers under PreferFloat, floats written as bare integer literals >= 2^63 under SignedInteger (DecodeNaked refuses them: F15-1\'s class), number-looking strings under decoder MapKeyAsString+MapType map[interface{}]interface{}. Findings: F01-g1, F01-1 fixed; F01-s2r (json + StringToRaw) known.',
 }
